@@ -1,4 +1,4 @@
-REPO_COMMITS = ["0e45a8e", "f51d74e", "e08c0a5", "7c6f8e4", "33cf0bf", "a187bb0", "a08c8ef"]
+REPO_COMMITS = ["0e45a8e", "f51d74e", "e08c0a5", "7c6f8e4", "33cf0bf", "a187bb0", "a08c8ef", "a09d5b7"]
 NOT_APPLICABLE = {}
 CHECKS = {
  "C05": dict(
@@ -25,4 +25,8 @@ CHECKS = {
   text="Held-on-what-was-observed: wrappers on extract/remove/add/reorder/combine/split_fields judge every observed call: result shape, the documented field list, per-field type (base type, sub-array shape, byte order) and raw element bytes of every retained field, zero/default fill of new fields, independence from the input buffer, and rejection of the invalid requests; copy_fields, copy_fields_by_name and compare_arrays are judged by the driver on before/after snapshots.",
   note="Trusts numpy dtype.fields, ascontiguousarray().tobytes() and item assignment semantics (for expected default fill).",
   technique="API-boundary monitor with documented-order model and bytewise per-field oracle"),
+ "C16": dict(
+  text="Held-on-what-was-observed: wrappers on to_native/to_big_endian/to_little_endian/byteswap judge each observed call against a pre-call snapshot: field structure, declared order of every multi-byte field equals the requested one (or dtype untouched with keep_dtype), element values equal through the (possibly swapped) dtype, independence of the inplace=False result, identity of the inplace=True result; every call is applied twice for idempotence / swap-swap restoration; predicates are compared with the declared order on every spelling, descr_to_native with dtype.newbyteorder('=').",
+  note="Trusts numpy astype between byte orders and dtype.newbyteorder. Little-endian host only (the big-endian-host branches of the predicates cannot execute here).",
+  technique="API-boundary monitor with snapshot-based value/order oracle; two-step call histories"),
 }
